@@ -142,3 +142,24 @@ CHECKS["C04"] = dict(
     level_text="Generated fault/cancel scripts over generated transcripts with a quiescence-based termination oracle; hangs are definite (nothing deliverable, virtual time advanced). One defect (cancel then pause) found and fixed.",
     level_note="Intra-step goroutine interleavings are not controlled.",
     technique="rapid fault-script testing in a synctest bubble with a termination oracle at quiescence", design_ref="DESIGN.md §4 C04")
+
+_MQ_ASSUME = [
+    "real ResponseAssembler -> PeerMessageManager -> MessageQueue -> Allocator stack over the simulator's gated network inside a synctest bubble; connection notifications reach the peer manager as libp2p's notifee would deliver them; a sender dies with its connection",
+    "every transaction fits under both memory limits (a reservation larger than a limit can never be granted)",
+    "Go's select picks among ready cases at random, so some histories are schedule-dependent: replays are repeated",
+]
+CHECKS["C15"] = dict(
+    pkg="props/c15", level="fault_enumeration", gomaxprocs=1, replay_reps=20,
+    rule="histories of 1-14 operations over 2 peers x 3 requests: transactions of 1-4 response operations (blocks 1 B - 1.9 KB, or up to 300 KiB in the thorough tier so that transactions spill over several messages; extension data 0 - 1.2 KB; status; finish) issued through real response streams by one worker per request, connect / disconnect notifications, stalling and un-stalling a peer's sends; 0-4 SendMsg failures and 0-3 connect failures at generated indices, 1-3 retries, small per-peer / total limits so that reservations wait; one case in four (C17: two in three) is built around the pattern 'send stalls, peer disconnects, is sent to again, reconnects, send resumes'. Oracle: no data is queued after its reservation failed; no release exceeds what the peer holds; at final quiescence (every gate open, virtual time advanced repeatedly) nothing is still waiting for memory and every peer's and the total accounted memory is zero. Non-trivial: a request with >= 2 messages and a send/connect fault, or extension data.",
+    assumptions=_MQ_ASSUME + ["histories in the class of known finding C16-built-after-queue-exit are excluded and counted"],
+    quick=dict(shards=2, timeout=400), thorough=dict(shards=16, timeout=3000),
+    level_text="Generated operation/fault histories against recording wrappers around the real allocator; exact zero-balance oracle at quiescence.",
+    level_note="Observes the allocator through a wrapper; intra-step interleavings are whatever the Go scheduler picks.",
+    technique="rapid fault-history testing of the real queue stack with an accounting oracle", design_ref="DESIGN.md §5 C15")
+CHECKS["C16"] = dict(CHECKS["C15"], pkg="props/c16",
+    rule=CHECKS["C15"]["rule"].split("Oracle:")[0] + "Every (message builder, request) pair a party attached itself to gets its own recording subscriber. Oracle at final quiescence: each attachment was told exactly one of Sent / Error, never both, never twice, and Queued never follows it; an attachment that heard nothing is excused only if another message of the same request for the same peer was reported failed (the queue deliberately discards the rest of a failed request). Non-trivial: a request with >= 2 messages and a fault, extension data, or a disconnect while a reservation is pending.",
+    technique="rapid fault-history testing of the real queue stack with per-attachment exactly-once oracle", design_ref="DESIGN.md §5 C16")
+CHECKS["C17"] = dict(CHECKS["C15"], pkg="props/c17",
+    rule=CHECKS["C15"]["rule"].split("Oracle:")[0] + "The queue factory records every queue's creation, Shutdown() call and shutdown callback. Oracle: at every quiescent point at most one queue per peer is live (created, not told to stop, callback not run); at the end, a peer with no connection and no outstanding Connected has no live queue; if message part a was completely queued before part b was submitted, b never reaches SendMsg in an earlier message than a. Non-trivial: a transaction or connect happens while an older queue for the peer has been told to stop but has not finished winding down.",
+    assumptions=_MQ_ASSUME,
+    technique="rapid fault-history testing of the real peer manager / queue stack with lifecycle and FIFO oracles", design_ref="DESIGN.md §5 C17")
